@@ -17,5 +17,5 @@ d = res.as_dict()
 for e in d["engine_errors"][:3]:
     for k, v in e.items():
         print(k, ":", v if k != "tb" else "\n" + v)
-print({k: d[k] for k in ("paths", "verified", "aborted", "validated", "queries", "solver_time", "wall", "inconclusive")})
+print({k: d[k] for k in ("paths", "verified", "aborted", "validated", "queries", "solver_time", "wall")}, sorted(set(d["inconclusive"]))[:8])
 print("violations", d["violations"][:2])
